@@ -163,7 +163,7 @@ def fixed_cases(tier):
             out.append(cs)
     # many classes (per-class task lists that are built or computed in groups)
     for kind in ("isv", "jfa"):
-        for nc in ([65, 70] if tier == "quick" else [63, 64, 65, 70, 129, 140]):
+        for nc in ([65, 70] if tier == "quick" else [63, 64, 65, 70, 129, 140, 300]):
             r2 = random.Random(f"fixed12classes/{kind}/{nc}")
             base = gen_case(r2, "quick", kind=kind, N=nc + 6, nc=nc)
             base["cfg"]["it"] = 1
@@ -174,7 +174,8 @@ def fixed_cases(tier):
                              "stall_p": 0.5, "seed": r2.getrandbits(32)}
             out.append(base)
     # many statistics / partitions around powers of two
-    counts = [15, 17, 31, 33, 65] if tier == "quick" else [15, 16, 17, 31, 32, 33, 63, 64, 65, 100, 129]
+    counts = [15, 17, 31, 33, 65] if tier == "quick" else \
+        [15, 16, 17, 31, 32, 33, 63, 64, 65, 100, 129, 257, 513, 1025]
     for kind in KINDS:
         for N in counts:
             if kind != "ivector" and N > 70:
